@@ -339,6 +339,28 @@ func (t *tsFunc) obj0(v ssa.Value) []string {
 			}
 			return nil
 		case *ssa.IndexAddr:
+			// element of a small local array literal ([...]Slab{left, right, root}): one of the values stored into it
+			if isTrackedT(x.Type()) {
+				if al, ok := a.X.(*ssa.Alloc); ok {
+					if _, isArr := al.Type().(*types.Pointer).Elem().Underlying().(*types.Array); isArr && al.Referrers() != nil {
+						var out []string
+						for _, ref := range *al.Referrers() {
+							ia, ok := ref.(*ssa.IndexAddr)
+							if !ok || ia.Referrers() == nil {
+								continue
+							}
+							for _, r2 := range *ia.Referrers() {
+								if st, ok := r2.(*ssa.Store); ok && st.Addr == ssa.Value(ia) {
+									out = append(out, t.obj(st.Val)...)
+								}
+							}
+						}
+						if len(out) > 0 {
+							return out
+						}
+					}
+				}
+			}
 			// element of a slice of slabs / elements
 			if isTrackedT(x.Type()) {
 				if own := t.ownerOfSlice(a.X); len(own) > 0 {
@@ -359,6 +381,26 @@ func (t *tsFunc) obj0(v ssa.Value) []string {
 		}
 	case *ssa.Index:
 		if isTrackedT(x.Type()) {
+			// a range over a local array literal reads a copy of the array value
+			if u, ok := x.X.(*ssa.UnOp); ok && u.Op == token.MUL {
+				if al, ok := u.X.(*ssa.Alloc); ok && al.Referrers() != nil {
+					var out []string
+					for _, ref := range *al.Referrers() {
+						ia, ok := ref.(*ssa.IndexAddr)
+						if !ok || ia.Referrers() == nil {
+							continue
+						}
+						for _, r2 := range *ia.Referrers() {
+							if st, ok := r2.(*ssa.Store); ok && st.Addr == ssa.Value(ia) {
+								out = append(out, t.obj(st.Val)...)
+							}
+						}
+					}
+					if len(out) > 0 {
+						return out
+					}
+				}
+			}
 			return t.collObj(x.X)
 		}
 	}
